@@ -42,6 +42,11 @@ class CompileMapper(StringifyMapper):
                 expr = float(expr)
             elif isinstance(expr, numpy.complexfloating):
                 expr = complex(expr)
+            elif isinstance(expr, numpy.integer):
+                # numpy 2: repr is np.int64(2), not a literal
+                expr = int(expr)
+            elif isinstance(expr, numpy.bool_):
+                expr = bool(expr)
 
         result = repr(expr)
         if (enclosing_prec > PREC_SUM
